@@ -3,6 +3,7 @@ package main
 import (
 	"runtime"
 	"sort"
+	"strings"
 	"sync"
 	"sync/atomic"
 	"testing/synctest"
@@ -229,15 +230,37 @@ func (r *throttleRunner) Do(op []string) string {
 // -- throttle under real parallelism (outside the virtual clock): Cancel racing a Next that is about to block
 //
 //	CASE throttlerace <T|F trailing>
-//	race <n>   => ok | stuck <round> <head start> | true <round>     (Next must return false once Cancel has returned)
+//	race <n>   => ok | stuck <round> <head start> | true <round> | slow <round>
+//
+// Next must return false once Cancel has returned.  The verdict `stuck` does not rest on a time-out (a starved
+// process would look the same): it is given only when, after Cancel has returned, the goroutine that called Next
+// is seen PARKED in sync.Cond.Wait in several consecutive goroutine dumps -- nobody will ever broadcast again, so
+// it is blocked for good.  A round that merely takes long is reported as `slow` (no verdict).
 type throttleRaceRunner struct{ trailing bool }
+
+// parkedInCondWait reports whether some goroutine is parked in sync.Cond.Wait below the given function.
+func parkedInCondWait(fn string) bool {
+	buf := make([]byte, 1<<20)
+	n := runtime.Stack(buf, true)
+	for _, g := range strings.Split(string(buf[:n]), "\n\n") {
+		head, _, _ := strings.Cut(g, "\n")
+		if strings.Contains(head, "sync.Cond.Wait") && strings.Contains(g, fn) {
+			return true
+		}
+	}
+	return false
+}
 
 func (r *throttleRaceRunner) Do(op []string) string {
 	if op[0] != "race" {
 		panic("harness: bad op " + op[0])
 	}
 	n := atoi(op[1])
+	begin := time.Now()
 	for i := 0; i < n; i++ {
+		if time.Since(begin) > hangLimit/4 { // a starved process: fewer rounds, never a verdict from slowness
+			break
+		}
 		th := gogu.NewThrottle(time.Hour, r.trailing)
 		var ready, fire atomic.Bool
 		res := make(chan bool, 1)
@@ -256,13 +279,27 @@ func (r *throttleRaceRunner) Do(op []string) string {
 			_ = fire.Load()
 		}
 		th.Cancel()
-		select {
-		case v := <-res:
-			if v {
-				return "true " + itoa(i)
+		parked, decided := 0, false
+		for w := 0; w < 200 && !decided; w++ {
+			select {
+			case v := <-res:
+				if v {
+					return "true " + itoa(i)
+				}
+				decided = true
+			case <-time.After(25 * time.Millisecond):
+				if parkedInCondWait("gogu.(*throttler).Next") {
+					parked++
+				} else {
+					parked = 0
+				}
+				if parked >= 8 {
+					return "stuck " + itoa(i) + " " + itoa(head)
+				}
 			}
-		case <-time.After(hangLimit / 2):
-			return "stuck " + itoa(i) + " " + itoa(head)
+		}
+		if !decided {
+			return "slow " + itoa(i)
 		}
 	}
 	return "ok"
@@ -444,11 +481,15 @@ func genC20(g *Gen) {
 	// ---- throttle: Cancel racing Next on real threads ---------------------------------------------
 	for _, tr := range []string{"T", "F"} {
 		if g.Mine() {
-			n := 3000
+			lines := 2
 			if g.Thorough() {
-				n = 30000
+				lines = 16
 			}
-			g.Emit("throttlerace", []string{tr}, []string{"race " + itoa(n), "race " + itoa(n)})
+			var ops []string
+			for k := 0; k < lines; k++ {
+				ops = append(ops, "race 2000")
+			}
+			g.Emit("throttlerace", []string{tr}, ops)
 		}
 	}
 	// ---- throttle -------------------------------------------------------------------------------
